@@ -121,7 +121,14 @@ def run(prop, tier, seed, nq=250, nt=6000, front="pigeon"):
     """returns (violations, coverage)"""
     core.ensure_built()
     n = nq if tier == "quick" else nt
-    base = base_case(front)
+    try:
+        base = base_case(front)
+    except Exception as e:
+        # the tables the working tree's pigeon emits for the front-end grammar cannot be read back (a field the harness does not
+        # know, a changed layout): this stage cannot be run; the other stages of the check go on and may find a failing input
+        msg = "the front-end-through-the-model stage cannot run against this tree: %s" % str(e)[:800]
+        log(msg)
+        return [("front-model/stage-broken", {"detail": msg, "broken_obligation": "read-back of the grammar literal emitted for grammar/%s.peg" % ("pigeon" if front == "pigeon" else front)}, False)], {"front_model_broken": str(e)[:300]}
     argv, prefix = FRONTS[front][1](), FRONTS[front][2]
     # 13 = filename, 16 = fuel, last = input (PROTOCOL.md)
     base[13] = "x" + FNAME.encode().hex()
